@@ -3,6 +3,7 @@ import random
 
 from .adapters.world import WorldAdapter
 from .tla import FD
+from .replay import SKIP
 
 
 def shadow_queue(ad, pending, op, args, obs):
@@ -46,6 +47,10 @@ def record(desper, K, seed, n_traces, n_calls):
     traces = []
     for _t in range(n_traces):
         ad.reset(None)
+        try:        # the ghost-mark family needs to see the pending marks; without that view it is not generated
+            blind = not isinstance(ad.env.w._dead_entities, set)
+        except Exception:
+            blind = True
         attached = {}        # comp -> entity
         rows = {}            # entity -> set(comps)
         dead = set()
@@ -83,7 +88,7 @@ def record(desper, K, seed, n_traces, n_calls):
                         cands += [('CreateDisabling', (rnd.choice(ids), c, rnd.choice(ds)))] * 2
             if 'remove' in acts and (enabled or qlen + 1 <= K['MaxQ']):
                 cands += [('RemoveComponent', (rnd.choice(sorted(rows) or ids), rnd.choice(types)))] * 3
-            if 'ghost' in acts and rnd.random() < 0.05:
+            if 'ghost' in acts and not blind and rnd.random() < 0.05:
                 cands += [('DeleteDeferred', (rnd.choice([i for i in ids if i not in rows] or ids),))] * 3
             if 'delete' in acts and rows:
                 cands += [('DeleteDeferred', (rnd.choice(sorted(rows)),))] * 2
@@ -127,10 +132,12 @@ def record(desper, K, seed, n_traces, n_calls):
             rows = {e: set(cs) for e, cs in obs['comps'].items() if cs}
             attached = {c: e for e, cs in rows.items() for c in cs}
             dead = {e for e in rows if not obs['exists'][e]}
-            ghosts = set(obs['wb_tables'][2]) - set(rows) if 'wb_tables' in obs else set()
+            ghosts = set(obs['wb_tables'][2]) - set(rows) if obs.get('wb_tables', SKIP) is not SKIP else set()
             plist = list(obs['processors'])
             enabled = obs['enabled']
             qlen = obs.get('wb_queue_len', 0)
+            if qlen is SKIP:
+                qlen = 0
             if op == 'CreateEntity' and args[0] == -1 and obs['ret'][0] == 'id':
                 auto_next = obs['ret'][1] + 1
             if op == 'Clear':
